@@ -2,14 +2,25 @@
    The core of agreement is that two honest views never decide the fame of a witness differently
    and that a decision, once reached on a view, is the decision of every larger view; everything
    after fame (round-received, frames, blocks) is a deterministic function of the decided famous
-   witnesses and the ancestry.  Proved here on the model's voting loop for ALL views satisfying the
-   quorum hypotheses [view_ok] / [same_history] (unbounded rounds and witnesses; n >= 1 static
-   validators).  Discharging those hypotheses from the DAG invariants (coordinates = ancestry:
-   stages S1-S3 of DESIGN.md) is not done yet: hence `_partial`.  The full statement is kept as a
-   Definition and is what the check's oracle evaluates on every history, after every action. *)
+   witnesses and the ancestry.
+   (1) `_partial` theorems: on the model's voting loop for ALL views satisfying the quorum
+       hypotheses [view_ok] / [same_history] (unbounded rounds and witnesses; n >= 1 validators).
+   (2) Stages S2/S3 (Proofs/FirstDesc .. Proofs/AgreementU): those hypotheses HOLD in every
+       reachable state of the per-event pipeline under static membership, and no consensus pass
+       ever fails there (C01_no_pass_fails), so fame agreement and decision stability are stated
+       below without view hypotheses: C01_fame_agreement, C01_fame_decision_stable.  Remaining
+       explicit premises:
+       - ids_determine all (hash collision freedom), no_accept all (static membership: no attempted
+         event carries an internal transaction with a positive receipt),
+       - no_cross_fork st1 st2: the two nodes do not hold different events of one creator at one
+         index (each node is fork free by C07; the abstract quorum argument needs |G j| <= n).
+   The full block-level statement is kept as a Definition and is what the check's oracle evaluates
+   on every history, after every action. *)
 From Coq Require Import ZArith List Bool Permutation.
 From V Require Import Model.ZMap Model.Quorum Model.Voting Model.VotingRef Model.HgImpl
-  Proofs.VotingProofs Proofs.VotingTheorems Proofs.FameBridge Proofs.BlockInv.
+  Proofs.VotingProofs Proofs.VotingTheorems Proofs.FameBridge Proofs.AdmissionProofs Proofs.BlockInv
+  Proofs.OrderProofs Proofs.Static Proofs.FirstDesc Proofs.CInvRun Proofs.SameHistory Proofs.Agreement
+  Proofs.NoFail Proofs.AgreementU Proofs.FameInv Proofs.FamousSet Proofs.DecidedFlag Proofs.RoundReceived.
 Import ListNotations.
 Open Scope Z_scope.
 
@@ -64,6 +75,198 @@ Theorem C01_delivery_indexed : forall self_ genesis oracle_ ops k d,
   nth_error (delivered (hrun (init_hg self_ genesis oracle_) ops)) k = Some d -> b_index d = Z.of_nat k.
 Proof. exact (fun s g o ops k d H => binv_consecutive _ (hrun_binv s g o ops) k d H). Qed.
 Print Assumptions C01_delivery_indexed.
+
+(** Stages S2/S3: the view hypotheses hold in every reachable state *)
+
+(* no consensus pass returns an error: the model's `failed` flag is never set under static membership *)
+Theorem C01_no_pass_fails : forall genesis all self_ oracle_ ops,
+  ids_determine all -> no_accept all -> Forall (hop_ok all) ops ->
+  failed (hrun (init_hg self_ genesis oracle_) ops) = false.
+Proof. exact hrun_not_failed. Qed.
+Print Assumptions C01_no_pass_fails.
+
+(* the premises of the two `_partial` theorems about one state: for every stored candidate x and
+   every round r, the lookups of DecideFame form a well-formed view *)
+Theorem C01_view_ok_reachable : forall genesis all self_ oracle_ ops x r ex,
+  ids_determine all -> no_accept all -> Forall (hop_ok all) ops ->
+  let st := hrun (init_hg self_ genesis oracle_) ops in
+  1 <= ps_len genesis -> -1 <= r <= last_round st -> get_event st x = Some ex ->
+  view_ok (ps_len genesis) r (vparams_of st x) (view_witnesses st) (last_round st) /\
+  (forall j, In j (zrange (r + 1) (last_round st)) -> round_witnesses st j <> None).
+Proof. exact (fun g all s o ops x r ex ID NA H => u_view_ok g all ID NA s o ops H x r ex). Qed.
+Print Assumptions C01_view_ok_reachable.
+
+(* the coordinate / division invariant of every reachable state (first descendants sound,
+   complete and with the walk-stop rule; memoised rounds and witness flags satisfy their
+   equations read in the current state; memoised events = events listed in the round tables) *)
+Theorem C01_coordinate_invariant : forall genesis all self_ oracle_ ops,
+  ids_determine all -> no_accept all -> Forall (hop_ok all) ops ->
+  cinv genesis None (hrun (init_hg self_ genesis oracle_) ops).
+Proof. exact (fun g all s o ops ID NA H => u_cinv g all ID NA s o ops H). Qed.
+Print Assumptions C01_coordinate_invariant.
+
+(* AGREEMENT ON FAME: any two nodes (any self, any oracle), any two attempt sequences over one
+   universe, per-event mode, static membership: whenever both have decided the fame of x as a
+   candidate of round r, the decisions are equal *)
+Theorem C01_fame_agreement : forall genesis all self1 self2 oracle1 oracle2 ops1 ops2 x r v1 v2,
+  ids_determine all -> no_accept all -> Forall (hop_ok all) ops1 -> Forall (hop_ok all) ops2 ->
+  let st1 := hrun (init_hg self1 genesis oracle1) ops1 in
+  let st2 := hrun (init_hg self2 genesis oracle2) ops2 in
+  no_cross_fork st1 st2 ->
+  fame_of st1 x r = Some (Some v1) -> fame_of st2 x r = Some (Some v2) -> v1 = v2.
+Proof.
+  exact (fun g all s1 s2 o1 o2 ops1 ops2 x r v1 v2 ID NA H1 H2 =>
+           u_fame_agreement g all ID NA s1 s2 o1 o2 ops1 ops2 H1 H2 x r v1 v2).
+Qed.
+Print Assumptions C01_fame_agreement.
+
+(* the same with fork freedom stated on the universe of attempted events *)
+Theorem C01_fame_agreement_fork_free_universe :
+  forall genesis all self1 self2 oracle1 oracle2 ops1 ops2 x r v1 v2,
+  ids_determine all -> fork_free all -> no_accept all -> Forall (hop_ok all) ops1 -> Forall (hop_ok all) ops2 ->
+  let st1 := hrun (init_hg self1 genesis oracle1) ops1 in
+  let st2 := hrun (init_hg self2 genesis oracle2) ops2 in
+  fame_of st1 x r = Some (Some v1) -> fame_of st2 x r = Some (Some v2) -> v1 = v2.
+Proof.
+  exact (fun g all s1 s2 o1 o2 ops1 ops2 x r v1 v2 ID FF NA H1 H2 =>
+           u_fame_agreement_universe g all ID NA s1 s2 o1 o2 ops1 ops2 H1 H2 x r v1 v2 FF).
+Qed.
+Print Assumptions C01_fame_agreement_fork_free_universe.
+
+(* DECISION STABILITY: the decision of a node is the decision of every node that stores at least
+   the same events (in particular of the same node later on) *)
+Theorem C01_fame_decision_stable : forall genesis all self1 self2 oracle1 oracle2 ops1 ops2 x r v,
+  ids_determine all -> no_accept all -> Forall (hop_ok all) ops1 -> Forall (hop_ok all) ops2 ->
+  let st1 := hrun (init_hg self1 genesis oracle1) ops1 in
+  let st2 := hrun (init_hg self2 genesis oracle2) ops2 in
+  no_cross_fork st1 st2 ->
+  (forall y e, get_event st1 y = Some e -> get_event st2 y <> None) ->
+  fame_of st1 x r = Some (Some v) -> fame_of st2 x r = Some (Some v).
+Proof.
+  exact (fun g all s1 s2 o1 o2 ops1 ops2 x r v ID NA H1 H2 =>
+           u_fame_stable g all ID NA s1 s2 o1 o2 ops1 ops2 H1 H2 x r v).
+Qed.
+Print Assumptions C01_fame_decision_stable.
+
+(** Famous witnesses (stretch): the fame recorded in the round tables, and the late-witness lemma *)
+
+(* a fame value recorded in a round table is the value of the voting loop read in the current state
+   (it was computed in an earlier state; decisions are stable) *)
+Theorem C01_recorded_fame_is_vote : forall genesis all self_ oracle_ ops r ri x (v : bool),
+  ids_determine all -> no_accept all -> Forall (hop_ok all) ops ->
+  let st := hrun (init_hg self_ genesis oracle_) ops in
+  get_round st r = Some ri -> aget x (ri_created ri) = Some (true, if v then TTrue else TFalse) ->
+  fame_of st x r = Some (Some v).
+Proof. exact recorded_fame_is_vote_hrun. Qed.
+Print Assumptions C01_recorded_fame_is_vote.
+
+(* two nodes that have each decided all the round-r witnesses they know (>= supermajority: the
+   condition under which WitnessesDecided sets its flag) hold the same famous witnesses of round r;
+   in particular a witness one of them learns later cannot be famous *)
+Theorem C01_famous_witnesses_agree :
+  forall genesis all self1 self2 oracle1 oracle2 ops1 ops2 r ri1 ri2 x,
+  ids_determine all -> no_accept all -> Forall (hop_ok all) ops1 -> Forall (hop_ok all) ops2 ->
+  let st1 := hrun (init_hg self1 genesis oracle1) ops1 in
+  let st2 := hrun (init_hg self2 genesis oracle2) ops2 in
+  no_cross_fork st1 st2 ->
+  full_dec genesis st1 r -> full_dec genesis st2 r ->
+  get_round st1 r = Some ri1 -> get_round st2 r = Some ri2 ->
+  (In x (famous_witnesses ri1) <-> In x (famous_witnesses ri2)).
+Proof. exact famous_witnesses_agree_hrun. Qed.
+Print Assumptions C01_famous_witnesses_agree.
+
+(* the same in terms of the model's sticky flag: two nodes whose round r is flagged "witnesses
+   decided" hold the same famous witnesses of round r, whenever each flag was set (the flag was set in
+   a state of the run where the round was fully decided: flag_history; the famous witnesses have not
+   changed since: famous_stable) *)
+Theorem C01_famous_witnesses_agree_decided :
+  forall genesis all self1 self2 oracle1 oracle2 ops1 ops2 r ri1 ri2 x,
+  ids_determine all -> no_accept all -> Forall (hop_ok all) ops1 -> Forall (hop_ok all) ops2 ->
+  let st1 := hrun (init_hg self1 genesis oracle1) ops1 in
+  let st2 := hrun (init_hg self2 genesis oracle2) ops2 in
+  no_cross_fork st1 st2 ->
+  get_round st1 r = Some ri1 -> get_round st2 r = Some ri2 ->
+  ri_decided ri1 = true -> ri_decided ri2 = true ->
+  (In x (famous_witnesses ri1) <-> In x (famous_witnesses ri2)).
+Proof. exact famous_witnesses_agree_decided_hrun. Qed.
+Print Assumptions C01_famous_witnesses_agree_decided.
+
+(** Round-received (stretch) *)
+
+(* what a round-received value means, read in the current state: x has round r; the rounds r+1..i are
+   flagged decided; i is the first of them whose famous witnesses all see x and are a supermajority *)
+Theorem C01_round_received_spec : forall genesis all self_ oracle_ ops x ex i,
+  ids_determine all -> no_accept all -> Forall (hop_ok all) ops ->
+  let st := hrun (init_hg self_ genesis oracle_) ops in
+  get_event st x = Some ex -> ev_rr ex = Some i ->
+  exists r, ev_round ex = Some r /\ rrspec genesis st x r i.
+Proof. exact rr_spec_hrun. Qed.
+Print Assumptions C01_round_received_spec.
+
+(* ROUND-RECEIVED AGREEMENT: two nodes that have both assigned a round-received to x assigned the same *)
+Theorem C01_round_received_agreement :
+  forall genesis all self1 self2 oracle1 oracle2 ops1 ops2 x e1 e2 i1 i2,
+  ids_determine all -> no_accept all -> Forall (hop_ok all) ops1 -> Forall (hop_ok all) ops2 ->
+  let st1 := hrun (init_hg self1 genesis oracle1) ops1 in
+  let st2 := hrun (init_hg self2 genesis oracle2) ops2 in
+  no_cross_fork st1 st2 ->
+  get_event st1 x = Some e1 -> get_event st2 x = Some e2 ->
+  ev_rr e1 = Some i1 -> ev_rr e2 = Some i2 -> i1 = i2.
+Proof. exact rr_agreement_hrun. Qed.
+Print Assumptions C01_round_received_agreement.
+
+Theorem C01_round_received_agreement_fork_free_universe :
+  forall genesis all self1 self2 oracle1 oracle2 ops1 ops2 x e1 e2 i1 i2,
+  ids_determine all -> fork_free all -> no_accept all -> Forall (hop_ok all) ops1 -> Forall (hop_ok all) ops2 ->
+  let st1 := hrun (init_hg self1 genesis oracle1) ops1 in
+  let st2 := hrun (init_hg self2 genesis oracle2) ops2 in
+  get_event st1 x = Some e1 -> get_event st2 x = Some e2 ->
+  ev_rr e1 = Some i1 -> ev_rr e2 = Some i2 -> i1 = i2.
+Proof. exact rr_agreement_universe. Qed.
+Print Assumptions C01_round_received_agreement_fork_free_universe.
+
+(* non-vacuity: the two-validator ping-pong DAG of 24 events; node 0 has inserted all of them, node 1
+   (other self, no oracle) the first 17; every premise holds and both nodes have decided the fame of
+   the witnesses of rounds 0..5 *)
+Definition c01_g : peerset := [mkPeer 100 0; mkPeer 101 1].
+Definition c01_ev (k : Z) : event :=
+  mkEvent k (k mod 2) (k / 2) (if k <? 2 then -1 else k - 2) (if k =? 0 then -1 else k - 1) k
+          (Z.even (k / 3)) (100 - k) [k] [] [] true.
+Definition c01_all : list event := map c01_ev (zseq 0 24).
+Definition c01_st1 : hg := hrun (init_hg 0 c01_g [7; 8; 9; 10; 11; 12; 13; 14; 15]) (map HInsert c01_all).
+Definition c01_st2 : hg := hrun (init_hg 1 c01_g []) (map HInsert (firstn 17 c01_all)).
+
+Example C01_example_premises :
+  ids_determine c01_all /\ fork_free c01_all /\ no_accept c01_all /\
+  Forall (hop_ok c01_all) (map HInsert c01_all) /\ Forall (hop_ok c01_all) (map HInsert (firstn 17 c01_all)).
+Proof.
+  split; [apply ids_determine_distinct; vm_compute; reflexivity|].
+  split; [apply fork_freeb_sound; vm_compute; reflexivity|].
+  split; [apply no_acceptb_sound; vm_compute; reflexivity|].
+  split; [apply hop_ok_inserts; vm_compute; reflexivity|].
+  apply hop_ok_inserts_firstn; vm_compute; reflexivity.
+Qed.
+
+Example C01_example_full_dec :
+  full_dec c01_g c01_st1 3 /\ full_dec c01_g c01_st2 3 /\
+  option_map famous_witnesses (get_round c01_st1 3) = Some [6; 7] /\
+  option_map famous_witnesses (get_round c01_st2 3) = Some [6; 7].
+Proof.
+  split; [apply full_decb_sound; vm_compute; reflexivity|].
+  split; [apply full_decb_sound; vm_compute; reflexivity|]. vm_compute. split; reflexivity.
+Qed.
+
+Example C01_example_rr :
+  map (fun x => match get_event c01_st1 x with Some e => ev_rr e | None => None end) (zseq 0 12)
+  = map (fun x => match get_event c01_st2 x with Some e => ev_rr e | None => None end) (zseq 0 12) /\
+  match get_event c01_st2 11 with Some e => ev_rr e | None => None end = Some 6.
+Proof. vm_compute. split; reflexivity. Qed.
+
+Example C01_example :
+  (last_round c01_st1, last_round c01_st2) = (11, 8) /\
+  map (fun x => (fame_of c01_st1 x (x / 2), fame_of c01_st2 x (x / 2))) (zseq 0 12)
+  = repeat (Some (Some true), Some (Some true)) 12.
+Proof. vm_compute. split; reflexivity. Qed.
 
 (* FULL STATEMENT (not yet proved): two nodes fed downward-closed parts of one fork-free DAG, in
    any topological orders, deliver prefix-consistent block sequences *)
